@@ -29,7 +29,8 @@ static inline size_t myth_globalattr_default_stacksize(void) {
   size_t sz = 0;
   char * env = getenv(ENV_MYTH_DEF_STKSIZE);
   if (env) {
-    sz = atoi(env);
+    int x = atoi(env);
+    if (x > 0) sz = x;
   }
   if (sz <= 0) {
     sz = MYTH_DEF_STACK_SIZE;
